@@ -1,6 +1,9 @@
 //! Implements the SCXML Data model for rFSM Expressions.
 
 use crate::actions::{Action, ActionWrapper};
+#[cfg(rfsm_verif)]
+use crate::verif_seams::collections::HashMap;
+#[cfg(not(rfsm_verif))]
 use std::collections::HashMap;
 use std::ops::Deref;
 
